@@ -7,6 +7,9 @@ import itertools
 import json
 import sys
 
+import logging
+logging.disable(logging.CRITICAL)
+
 import aiohttp
 
 from electrumx.server import daemon as Dm
@@ -80,9 +83,186 @@ def check(script, nurls, end):
     return None
 
 
+# ---- vector calls and block streaming through a scripted HTTP session ---------------------------------------------
+
+class FakeContent:
+    def __init__(self, chunks, fail_after):
+        self.chunks, self.fail_after = chunks, fail_after
+
+    async def iter_chunks(self):
+        for i, c in enumerate(self.chunks):
+            if self.fail_after is not None and i == self.fail_after:
+                raise aiohttp.ClientPayloadError('stream broke')
+            yield c, True
+        if self.fail_after is not None and self.fail_after >= len(self.chunks):
+            raise aiohttp.ClientPayloadError('stream broke')
+
+
+class FakeResp:
+    def __init__(self, kind, body=None, chunks=None, fail_after=None, text='busy'):
+        self.headers = {'Content-Type': kind}
+        self._body, self._text, self.reason = body, text, 'reason'
+        self.content = FakeContent(chunks or [], fail_after)
+
+    async def json(self):
+        return self._body
+
+    async def text(self):
+        return self._text
+
+    async def __aenter__(self):
+        return self
+
+    async def __aexit__(self, *a):
+        return False
+
+
+class FakeSession:
+    '''replies: one entry per attempt: an exception instance (raised on entering the request) or a FakeResp factory
+    taking the decoded request payload'''
+    def __init__(self, replies):
+        self.replies, self.k, self.requests = replies, 0, []
+
+    def _next(self, payload):
+        r = self.replies[min(self.k, len(self.replies) - 1)]
+        self.k += 1
+        self.requests.append(payload)
+        if self.k > len(self.replies) + 2:
+            raise RuntimeError('the call keeps retrying after the daemon answered')
+        if isinstance(r, BaseException):
+            raise r
+        return r(payload)
+
+    def post(self, url, data=None):
+        return self._next(json.loads(data))
+
+    def get(self, url):
+        return self._next(url)
+
+
+def make_daemon(replies):
+    d = Dm.Daemon(Coin(), 'http://u:p@h0:8332/', init_retry=0.25, max_retry=1.0)
+    d.session = FakeSession(replies)
+
+    async def fake_sleep(t):
+        pass
+    Dm.asyncio.sleep = fake_sleep
+    return d
+
+
+def batch_reply(items):
+    '''items: per request 'ok' | 'err' | 'warm'; the daemon answers in request order'''
+    def f(payload):
+        out = []
+        for req, kind in zip(payload, items):
+            if kind == 'ok':
+                out.append({'result': ['answer-to', req['params']], 'error': None, 'id': req['id']})
+            elif kind == 'err':
+                out.append({'result': None, 'error': {'code': -5, 'message': 'no such tx'}, 'id': req['id']})
+            else:
+                out.append({'result': None, 'error': {'code': -28, 'message': 'warming up'}, 'id': req['id']})
+        return FakeResp('application/json', body=out)
+    return f
+
+
+def check_vector(n, faults, first_kinds, final_kinds, replace_errs):
+    '''a vector call of n requests: transient faults, then (optionally) a reply in which some items are still warming
+    up, then the final reply'''
+    replies = [FAULTS[f]() for f in faults]
+    if first_kinds is not None:
+        replies.append(batch_reply(first_kinds))
+    replies.append(batch_reply(final_kinds))
+    d = make_daemon(replies)
+    params = [(f'p{i}', i) for i in range(n)]
+
+    async def go():
+        try:
+            return ('ok', await d._send_vector('m', iter(params), replace_errs=replace_errs))
+        except Dm.DaemonError as e:
+            return ('rpc_error', e.args)
+        except RuntimeError as e:
+            return ('runaway', str(e))
+    out = asyncio.run(go())
+    if n == 0:
+        return None if out == ('ok', []) else f'empty vector call returned {out!r}'
+    warm_first = first_kinds is not None and 'warm' in first_kinds
+    expect_attempts = len(faults) + (2 if first_kinds is not None and warm_first else 1)
+    kinds = final_kinds if (first_kinds is None or warm_first) else first_kinds
+    if d.session.k != expect_attempts:
+        return f'{d.session.k} attempts, expected {expect_attempts} (a reply with warming-up items is not an answer)'
+    has_err = 'err' in kinds
+    if has_err and not replace_errs:
+        return None if out[0] == 'rpc_error' else f'genuine RPC errors not raised: {out!r}'
+    want = [['answer-to', [f'p{i}', i]] if k == 'ok' else None for i, k in enumerate(kinds)]
+    if out != ('ok', want):
+        return f'returned {out!r}, the aligned genuine answers are {want!r}'
+    return None
+
+
+def check_get_block(chunks_by_attempt, tmpdir):
+    '''block-to-file streaming: attempts given as (chunks, fail_after | None | "refused"); the file must hold exactly the
+    body of the attempt that succeeded'''
+    import os
+    replies = []
+    for chunks, fail in chunks_by_attempt:
+        if fail == 'refused':
+            replies.append(lambda url, c=chunks: FakeResp('text/plain', text='Work queue depth exceeded'))
+        else:
+            replies.append(lambda url, c=chunks, f=fail: FakeResp('application/octet-stream', chunks=c, fail_after=f))
+    d = make_daemon(replies)
+    name = os.path.join(tmpdir, 'blk')
+
+    async def go():
+        try:
+            return ('ok', await d.get_block('ab' * 32, name))
+        except RuntimeError as e:
+            return ('runaway', str(e))
+    out = asyncio.run(go())
+    body = b''.join(chunks_by_attempt[-1][0])
+    with open(name, 'rb') as f:
+        got = f.read()
+    if out != ('ok', len(body)):
+        return f'returned {out!r}, the block has {len(body)} bytes'
+    if got != body:
+        return f'the file holds {len(got)} bytes ({got[:24]!r}...), the daemon\'s block is {len(body)} bytes ({body[:24]!r}...)'
+    return None
+
+
+def search_vector_and_file():
+    import tempfile
+    import shutil
+    tried = 0
+    for n in (0, 1, 2, 3):
+        for faults in ([], [1], [7], [2, 6]):
+            for final in itertools.product(('ok', 'err'), repeat=n):
+                firsts = [None] + [f for f in itertools.product(('ok', 'err', 'warm'), repeat=n) if 'warm' in f]
+                for first in firsts:
+                    for replace in (False, True):
+                        tried += 1
+                        bad = check_vector(n, faults, first, list(final), replace)
+                        if bad:
+                            return tried, {'call': '_send_vector', 'requests': n, 'faults': faults, 'first_reply': first,
+                                           'final_reply': list(final), 'replace_errs': replace}, bad
+    tmp = tempfile.mkdtemp(prefix='verif-daemon-')
+    try:
+        A, B = [b'first-attempt-' * 3, b'more', b'tail-of-a-longer-body'], [b'blk', b'-data']
+        for script in ([(B, None)], [(A, 1), (B, None)], [(A, 3), (B, None)], [(A, 'refused'), (B, None)],
+                       [(A, 2), (A, 0), (B, None)], [(B, 1), (A, None)], [(A, 1), ([], None)]):
+            tried += 1
+            bad = check_get_block(script, tmp)
+            if bad:
+                return tried, {'call': 'get_block', 'attempts': [[len(c), f] for c, f in script]}, bad
+    finally:
+        shutil.rmtree(tmp, ignore_errors=True)
+    return tried, None, None
+
+
 def main():
     req = json.loads(sys.stdin.read() or '{}')
-    tried = 0
+    tried, inp, bad = search_vector_and_file()
+    if bad:
+        print(json.dumps({'reproduced': True, 'input': inp, 'detail': bad, 'tried': tried}, default=repr))
+        return
     for nurls in (1, 2, 3):
         for n in range(0, 6):
             for script in itertools.product((1, 2, 6, 7), repeat=n) if n > 3 else itertools.product(range(1, 8), repeat=n):
